@@ -1,18 +1,33 @@
 (* Model side of the C12 correspondence (request queue, Model/ReqMgr.v).
-   usage: c12_driver [capacity [max_workers]]      (defaults: the real 100 and 24)
+   usage: c12_driver [capacity [max_workers [reply_capacity]]]
+          defaults: the real values, taken from the extracted [rinit_real]
+          (100, 24, 1); reply_capacity 0 = the unbuffered reply channels of
+          the code before the fix of F-REQ-DEADLOCK.
    stdin: one schedule per line, labels separated by ';':
-     E id        Enqueue id       (AppendRequest up to the Unlock)
-     T id        SendToken id     (AppendRequest's token send)
-     L           LoopRecv         (Run: receive one message)
-     D id        Deliver id       (Run: hand the result to caller id)
-     X           Dispatch         (Run: the dispatch step that ends the iteration)
-     F id ok|ab  WorkerFinish id  (worker sends its result / the aborted marker)
+     E id          Enqueue id       (AppendRequest up to the Unlock)
+     T id          SendToken id     (AppendRequest's token send)
+     L             LoopRecv         (Run: receive one message), unchecked
+     L token       LoopRecv, and the message received must be a wake-up token
+     L id ok|ab    LoopRecv, and the message received must be that result
+     D id          Deliver id       (Run: hand the result to caller id)
+     X             Dispatch         (Run: the dispatch step ending the iteration), unchecked
+     X id          Dispatch that starts exactly request id
+     X -           Dispatch that starts nothing (queue empty or all slots taken)
+     F id ok|ab    WorkerFinish id  (worker sends its result / the aborted marker)
    The special line "deadlock n" runs the extracted [deadlock_schedule n].
+   Lines that are empty or start with '#' are skipped.
    stdout, one line per schedule:
-     ok queue=.. inflight=.. chan=.. done=id,id,.. loop=.. workers=.. ens=.. enabled=N potential=P
-   or  notenabled@<k>   (k = 0-based position of the first label that is not enabled).
-   Lists are comma separated, "-" when empty; chan is in receive order with
-   T = token, R<id>ok / R<id>ab = results; done/workers/ens are sorted. *)
+     ok queue=.. inflight=.. chan=.. done=id,id,.. loop=.. workers=.. ens=.. rns=..
+        callers=ENS:a,RNS:b,W:c,DONE:d enabled=N potential=P          (one line)
+   or  notenabled@<k>                    label k is not enabled in the model
+   or  mismatch@<k> recv model=<m>       label k = annotated L, the model's channel head is <m>
+   or  mismatch@<k> dispatch model=<d>   label k = annotated X, the model starts <d> (an id or -)
+   k is the 0-based position of the label in the line.  Lists are comma
+   separated, "-" when empty; queue and chan are in order (chan: receive
+   order, T = token, R<id>ok / R<id>ab = results; <m> uses the same syntax);
+   done/workers/ens/rns are sorted.  done = callers in CDone only; ens =
+   Enqueued_not_signalled; rns = Replied_not_signalled (reply already in the
+   caller's channel, token not yet sent); loop = I (idle) | D<id> | X. *)
 open Sdbmodel
 open Util
 
@@ -31,46 +46,85 @@ let show_msg (m : msg) : string =
 
 let show_state (s : rstate) : string =
   let chan = if s.chan = [] then "-" else String.concat "," (List.map show_msg s.chan) in
-  let dones = List.filter_map (fun (k, c) -> match c with CDone (_, _) -> Some k | _ -> None) s.callers in
-  let ens = List.filter_map (fun (k, c) -> match c with Enqueued_not_signalled -> Some k | _ -> None) s.callers in
+  let pick f = List.filter_map (fun (k, c) -> if f c then Some k else None) s.callers in
+  let dones = pick (fun c -> match c with CDone (_, _) -> true | _ -> false) in
+  let ens = pick (fun c -> c = Enqueued_not_signalled) in
+  let rns = pick (fun c -> match c with Replied_not_signalled (_, _) -> true | _ -> false) in
+  let waiting = pick (fun c -> c = Waiting) in
   let loop = match s.loop with
     | Idle -> "I"
     | Dispatching -> "X"
     | Delivering (i, _) -> Printf.sprintf "D%d" (int_of_n i) in
-  Printf.sprintf "ok queue=%s inflight=%d chan=%s done=%s loop=%s workers=%s ens=%s enabled=%d potential=%d"
+  Printf.sprintf
+    "ok queue=%s inflight=%d chan=%s done=%s loop=%s workers=%s ens=%s rns=%s callers=ENS:%d,RNS:%d,W:%d,DONE:%d enabled=%d potential=%d"
     (ids s.queue) (int_of_n s.inflight) chan (sorted_ids dones) loop (sorted_ids s.workers)
-    (sorted_ids ens) (List.length (enabled s)) (int_of_nat (potential s))
+    (sorted_ids ens) (sorted_ids rns)
+    (List.length ens) (List.length rns) (List.length waiting) (List.length dones)
+    (List.length (enabled s)) (int_of_nat (potential s))
 
-let parse_label (op : string) : label =
+(* what the implementation observed at an annotated step *)
+type check =
+  | NoCheck
+  | Recv of msg                (* L token | L id ok|ab *)
+  | Starts of n option         (* X id | X - *)
+
+let parse_label (op : string) : label * check =
   let id s = n_of_int (int_of_string s) in
   match fields op with
-  | "E" :: i :: _ -> Enqueue (id i)
-  | "T" :: i :: _ -> SendToken (id i)
-  | "L" :: _ -> LoopRecv
-  | "D" :: i :: _ -> Deliver (id i)
-  | "X" :: _ -> Dispatch
-  | "F" :: i :: "ok" :: _ -> WorkerFinish (id i, Ok)
-  | "F" :: i :: "ab" :: _ -> WorkerFinish (id i, Aborted)
+  | "E" :: i :: _ -> (Enqueue (id i), NoCheck)
+  | "T" :: i :: _ -> (SendToken (id i), NoCheck)
+  | "L" :: "token" :: _ -> (LoopRecv, Recv Token)
+  | "L" :: i :: "ok" :: _ -> (LoopRecv, Recv (Result (id i, Ok)))
+  | "L" :: i :: "ab" :: _ -> (LoopRecv, Recv (Result (id i, Aborted)))
+  | "L" :: [] -> (LoopRecv, NoCheck)
+  | "D" :: i :: _ -> (Deliver (id i), NoCheck)
+  | "X" :: "-" :: _ -> (Dispatch, Starts None)
+  | "X" :: i :: _ -> (Dispatch, Starts (Some (id i)))
+  | "X" :: [] -> (Dispatch, NoCheck)
+  | "F" :: i :: "ok" :: _ -> (WorkerFinish (id i, Ok), NoCheck)
+  | "F" :: i :: "ab" :: _ -> (WorkerFinish (id i, Aborted), NoCheck)
   | _ -> failwith ("bad label: " ^ op)
 
-(* position of the first label that is not enabled *)
-let rec first_disabled (k : int) (s : rstate) (ls : label list) : int =
+(* runs the schedule with the extracted [rstep]; Error carries the verdict line *)
+let rec run (k : int) (s : rstate) (ls : (label * check) list) : (rstate, string) result =
   match ls with
-  | [] -> k
-  | l :: r -> (match rstep s l with Some s' -> first_disabled (k + 1) s' r | None -> k)
+  | [] -> Stdlib.Ok s
+  | (l, chk) :: rest ->
+    (match rstep s l with
+     | None -> Stdlib.Error (Printf.sprintf "notenabled@%d" k)
+     | Some s' ->
+       (match chk with
+        | NoCheck -> run (k + 1) s' rest
+        | Recv m ->
+          (* LoopRecv was enabled, so the channel is not empty *)
+          let head = List.hd s.chan in
+          if head = m then run (k + 1) s' rest
+          else Stdlib.Error (Printf.sprintf "mismatch@%d recv model=%s" k (show_msg head))
+        | Starts want ->
+          let started =
+            if List.length s'.workers > List.length s.workers then Some (List.hd s'.workers)
+            else None in
+          if started = want then run (k + 1) s' rest
+          else Stdlib.Error (Printf.sprintf "mismatch@%d dispatch model=%s" k
+                        (match started with Some i -> string_of_int (int_of_n i) | None -> "-"))))
 
 let () =
-  let arg i d = if Array.length Sys.argv > i then int_of_string Sys.argv.(i) else d in
-  let init = rinit (n_of_int (arg 1 100)) (n_of_int (arg 2 24)) in
+  let arg i d = if Array.length Sys.argv > i then n_of_int (int_of_string Sys.argv.(i)) else d in
+  let init = rinit (arg 1 rinit_real.cap) (arg 2 rinit_real.maxw) (arg 3 rinit_real.rcap) in
   iter_lines (fun line ->
     let line = String.trim line in
     if line <> "" && line.[0] <> '#' then begin
       let sched = match fields line with
-        | "deadlock" :: k :: _ -> deadlock_schedule (nat_of_int (int_of_string k))
+        | "deadlock" :: k :: _ ->
+          List.map (fun l -> (l, NoCheck)) (deadlock_schedule (nat_of_int (int_of_string k)))
         | _ ->
           List.map parse_label
             (List.filter (fun x -> String.trim x <> "") (String.split_on_char ';' line)) in
-      match rrun sched init with
-      | Some s -> print_endline (show_state s)
-      | None -> Printf.printf "notenabled@%d\n" (first_disabled 0 init sched)
+      match run 0 init sched with
+      | Stdlib.Ok s ->
+        (* cross-check against the extracted [rrun] *)
+        (match rrun (List.map fst sched) init with
+         | Some s2 when s2 = s -> print_endline (show_state s)
+         | _ -> failwith "rrun and rstep disagree")
+      | Stdlib.Error verdict -> print_endline verdict
     end)
